@@ -230,13 +230,14 @@ def tie_b(res, workdir):
 
 
 def tie_b_kernels(res, workdir, parts=('ck', 'ubx', 'nmea')):
-    """Tie B for code kernels: translate the requested kernels (ck = Checksum, ubx = UbxParser, nmea = NmeaParser) of
+    """Tie B for code kernels: translate the requested kernels (ck = Checksum, ubx = UbxParser, nmea = NmeaParser,
+    frame = UbxFrame.to_bytes/_calc_checksum) of
     /repo's current source to Gallina (py/vlib/translate.py), compile, and compile the bridge lemmas coq/bridge/Bridge*.v
     (generated = model). Translator rejection (source shape outside the accepted subset): recorded as unavailable, NO
     alarm — the verdict rests on Tie A. Bridge failure: broken proof obligation (violation without failing input unless
     Tie A finds one)."""
     from . import translate
-    if 'ubx' in parts and 'ck' not in parts:
+    if ('ubx' in parts or 'frame' in parts) and 'ck' not in parts:
         parts = ('ck',) + tuple(parts)
     gen = os.path.join(workdir, 'genk')
     os.makedirs(gen, exist_ok=True)
@@ -254,7 +255,7 @@ def tie_b_kernels(res, workdir, parts=('ck', 'ubx', 'nmea')):
         res.notes['tie_B_kernels'] = 'unavailable: generated Kernels.v does not type-check: ' + out[-400:]
         return False
     allok = True
-    for part, fname in (('ck', 'BridgeCk.v'), ('ubx', 'BridgeUbx.v'), ('nmea', 'BridgeNmea.v')):
+    for part, fname in (('ck', 'BridgeCk.v'), ('ubx', 'BridgeUbx.v'), ('nmea', 'BridgeNmea.v'), ('frame', 'BridgeFrame.v')):
         if part not in parts:
             continue
         dst = os.path.join(gen, fname)
@@ -336,9 +337,7 @@ def exn_token(e):
 def guarded(fn, *a):
     try:
         return fn(*a)
-    except RecursionError:
-        raise
-    except Exception as e:  # noqa: the implementation may raise anything
+    except Exception as e:  # noqa: the implementation may raise anything (RecursionError included)
         return exn_token(e)
 
 
